@@ -55,7 +55,9 @@ def approx_args_from(args):
                 pos = (d - d_min) * subpixel
                 k = int(pos)
                 diag = c - d
-                ok = abs(pos - round(pos)) < 1e-9 and 0 <= k <= nd - 1 and diag == int(diag) and 0 <= int(diag) < cols
+                # exactly on a sample (as a value: -6.7e-23 has position 4.0 in float64 and is not the sample 0.0)
+                ok = d_min + round(pos) / subpixel == d and 0 <= k <= nd - 1 and diag == int(diag) \
+                    and 0 <= int(diag) < cols
             if not ok:
                 mask[r, c] = 1
                 dr[r, c] = 0
